@@ -1,6 +1,5 @@
 """C06  A successful immutable upload meets servers-of-happiness."""
 import os
-import shutil
 
 from core import term as T
 
@@ -8,7 +7,10 @@ ID = "C06"
 GEN = []
 RULE = ("grid cases: 1..12 servers, each normal / full / read-only (announced or not) / broken / failing on allocate_buckets / failing on a "
         "write or on close (error before or after execution) / slow (allocate answer lost, get_buckets lost); k, happy (1..N, sometimes "
-        "N+1), N in 1..10; pre-existing complete shares placed by a first upload and then copied, moved or deleted between servers; 1-4 "
+        "N+1), N in 1..10; pre-existing complete shares anywhere (share files of a fault-free upload of the same file copied onto chosen "
+        "servers, several servers holding the same share, one or two servers holding most share numbers with happy exactly at what is "
+        "reachable and a write/close fault on a server that receives one of those share numbers again, or a real earlier upload that "
+        "could only reach a subset of the servers); 1-4 "
         "segments, write batches of 1 MB or of 40..400 bytes (several remote writes per share); every response ordering by seed; "
         "non-trivial = the upload meets at least one non-normal server, fault or pre-existing share; distinct = distinct scenario data")
 META = {
@@ -19,15 +21,17 @@ META = {
                    "servers-of-happiness value (C08's verified maximum matching) of the shares found or closed is at least the threshold, and "
                    "hence that a matching of that size exists among shares a server reported or whose writer acknowledged close; the shares "
                    "the results name are exactly the allocated buckets whose every write and close were acknowledged; on unhappiness every "
-                   "allocated bucket is sent abort, close is only sent after every write was acknowledged and nothing follows an abort, so no "
-                   "bucket stays open and a visible share is complete.  The model is replayed on the request/response trace of real uploads on "
+                   "allocated bucket is sent abort so none stays open, and whatever the verdict a bucket that ends closed (visible) was sent close "
+                   "only after every write had been acknowledged; with servers that allocate only what they were asked for the assertion of "
+                   "set_shareholders cannot fail (the defect repaired in /repo 111e37b).  The model is replayed on the request/response trace of real uploads on "
                    "an in-process grid with faults (same queries, verdict, maps, aborts), and the property is evaluated directly on the servers' "
                    "disks with an independent matching."),
     "level_note": ("core (partial): the share placement plan of each round (C07) is an input of the model (the theorems hold for every plan); "
                    "erasure coding, hashing and the share layout are not modelled (complete = byte-identical to the share of a fault-free "
                    "upload, checked by the driver); the storage server's bucket life cycle is the three-state abstraction of C22 "
                    "(visible iff closed, abort of an open writer removes it); response orders are exercised by seed, the proofs quantify over "
-                   "all of them.  A lost answer (no timeout in the encoder) and lying servers are outside the model."),
+                   "all of them.  An answer that never arrives during the transfer (the encoder has no timeout) ends the model in VPending; a server "
+                   "that reports shares it does not hold is believed by the uploader and by the model alike (found = reported)."),
     "technique": "Coq proof by induction over response sequences of a selector/encoder model on top of C08 + trace replay against the real uploader on a grid with fault plans + direct disk oracle",
     "design_ref": "8/C06",
     "trusted_base": ["trace recorder in harness/props/c06.py (wraps ServerTracker / Tahoe2ServerSelector / Encoder methods)"],
@@ -350,7 +354,7 @@ def later(fn):
     return start
 
 
-def run_scenario(sc, keep_grid=False):
+def run_scenario(sc):
     """Execute one scenario on a fresh grid.  Returns a dict of observations (pure data)."""
     from core import grid as G
     from twisted.internet import defer
@@ -537,12 +541,54 @@ def model_term(sc, obs):
     if v in ("VSuccess", "VUnhappyEnc"):
         parts.append("dm_eqb (r_servermap r) %s" % t_dmap(rec["enc"]["final_servermap"]))
         parts.append("dm_eqb (r_found r) %s" % t_dmap(rec["sel_result"]["already"]))
-    return "(let r := upload_run %s %s in %s)" % (cfg, script, " && ".join(parts))
+    parts.append("honest_runb c x")      # hypotheses of honest_upload_never_asserts hold on the real trace
+    return "(let c := %s in let x := %s in let r := upload_run c x in %s)" % (cfg, script, " && ".join(parts))
 
 
 # ---------------------------------------------------------------------------------------------
 # generator
 # ---------------------------------------------------------------------------------------------
+def gen_multihold(r, sc):
+    """One or two servers already hold several share numbers (an earlier upload that reached only them); the other servers
+    are writable and one or two of them fail a write or the close of the share they receive, a share number the multi-share
+    server holds too; happy is exactly what is reachable before the failure (rarely one less).  After the failure the
+    surviving layout is short of happy although every share number is still recorded on some server."""
+    S, N = max(sc["servers"], 2), max(sc["N"], 2)
+    sc["servers"], sc["N"] = S, N
+    holders = r.sample(range(S), min(S - 1, r.choice([1, 1, 2])))
+    others = [s for s in range(S) if s not in holders]
+    pre = set()
+    for h in holders:
+        for sh in r.sample(range(N), r.randint(max(2, N - 1), N)):
+            pre.add((h, sh))
+    states, faults = {}, []
+    for h in holders:
+        st = r.choice(["ro-announced", "ro-announced", "full", "ro", None])
+        if st:
+            states[str(h)] = st
+    for s in others:
+        if r.random() < 0.15:
+            states[str(s)] = r.choice(["full", "ro"])
+    writable = [s for s in others if str(s) not in states]
+    victims = r.sample(writable, min(len(writable), r.choice([1, 1, 2])))
+    for v in victims:
+        if r.random() < 0.6:
+            faults.append({"server": v, "method": "write", "nth": r.choice([0, 0, 1, 2]), "count": r.choice([1, None]),
+                           "action": r.choice(["error", "error", "error_after"])})
+        else:
+            faults.append({"server": v, "method": "close", "nth": 0, "count": 1, "action": r.choice(["error", "error", "error_after"])})
+    for s in writable:
+        if s not in victims and r.random() < 0.1:
+            faults.append({"server": s, "method": r.choice(["allocate_buckets", "write", "close"]), "nth": 0, "count": None, "action": "delay"})
+    reach = kuhn(set(pre) | set((s, sh) for s in writable for sh in range(N)))
+    sc["pre"] = sorted(list(e) for e in pre)
+    sc["states"] = states
+    sc["faults"] = faults
+    sc["happy"] = max(1, min(N, r.choice([reach, reach, reach, reach, reach - 1])))
+    sc["download"] = r.random() < 0.5
+    return sc
+
+
 def gen_scenario(r, thorough=False):
     S = r.choice([1, 2, 3, 3, 4, 4, 5, 5, 6, 6, 7, 8, 8, 10, 12])
     N = r.choice([1, 2, 3, 3, 4, 4, 5, 5, 6, 6, 8, 10])
@@ -553,7 +599,9 @@ def gen_scenario(r, thorough=False):
     segsize = max(k, -(-size // nseg))
     batch = r.choice([None, None, 40, 100, 400])
     sc = {"seed": r.getrandbits(30), "servers": S, "k": k, "N": N, "size": size, "segsize": segsize, "batch": batch}
-    style = r.choice(["clean", "mixed", "mixed", "mixed", "hostile", "preheavy", "dupes"])
+    style = r.choice(["clean", "mixed", "mixed", "mixed", "hostile", "preheavy", "dupes", "multihold", "multihold"])
+    if style == "multihold":
+        return gen_multihold(r, sc)
     states, faults = {}, []
     p_bad = {"clean": 0.0, "mixed": 0.3, "hostile": 0.6, "preheavy": 0.25, "dupes": 0.5}[style]
     for s in range(S):
@@ -696,16 +744,19 @@ def designed():
                                             {"server": 1, "method": "write", "nth": 0, "count": 1, "action": "error_after"}]),
         sc(servers=4, N=4, happy=2, batch=None, faults=[{"server": 3, "method": "write", "nth": 0, "count": None, "action": "error"},
                                                         {"server": 2, "method": "close", "nth": 0, "count": 1, "action": "error"}]),
+        # a server already holds several share numbers; the server receiving one of them again fails: the share number is still
+        # recorded (on the multi-share server), but that server is needed for another share in the matching
+        sc(servers=2, N=2, happy=2, pre=[[0, 0], [0, 1]], states={"0": "ro-announced"}, faults=[{"server": 1, "method": "write", "nth": 1, "count": 1, "action": "error"}]),
+        sc(servers=2, N=2, happy=2, pre=[[0, 0], [0, 1]], faults=[{"server": 1, "method": "write", "nth": 1, "count": 1, "action": "error"}]),
+        sc(servers=2, N=2, happy=2, pre=[[0, 0], [0, 1]], states={"0": "full"}, faults=[{"server": 1, "method": "close", "nth": 0, "count": 1, "action": "error"}]),
+        sc(servers=3, N=3, happy=3, pre=[[0, 0], [0, 1], [0, 2]], faults=[{"server": 2, "method": "write", "nth": 1, "count": 1, "action": "error"}]),
+        sc(servers=3, N=3, happy=3, pre=[[0, 0], [0, 1], [0, 2]], states={"0": "ro-announced"}, faults=[{"server": 1, "method": "close", "nth": 0, "count": 1, "action": "error"}]),
+        sc(servers=3, N=3, happy=2, pre=[[0, 0], [0, 1], [0, 2]], states={"1": "full"}, faults=[{"server": 2, "method": "write", "nth": 1, "count": 1, "action": "error"}]),
+        sc(servers=4, N=4, happy=3, pre=[[0, 0], [0, 1], [0, 2], [0, 3], [1, 0], [1, 1]], states={"0": "ro-announced", "1": "ro"},
+           faults=[{"server": 2, "method": "write", "nth": 1, "count": 1, "action": "error"}, {"server": 3, "method": "close", "nth": 0, "count": 1, "action": "error"}]),
         # pre-existing shares count towards happiness; a failing server that holds one still counts as found
         sc(servers=3, N=3, happy=3, pre=[[0, 0], [1, 1]], states={"0": "ro-announced", "1": "ro-announced"}),
         sc(servers=3, N=3, happy=3, pre=[[0, 0], [1, 0]], states={"0": "ro-announced", "1": "ro-announced"}),
-        # second allocation round re-plans shares (AssertionError before /repo 111e37b)
-        {"seed": 52050709, "servers": 6, "k": 3, "N": 4, "size": 1000, "segsize": 1000, "batch": 40, "pre": [[1, 2], [2, 0], [3, 0]],
-         "states": {"1": "full", "3": "ro"}, "faults": [], "happy": 4, "download": True},
-        {"seed": 894546294, "servers": 8, "k": 2, "N": 4, "size": 56, "segsize": 14, "batch": 40, "pre": [], "first": [1, 6], "states": {},
-         "faults": [{"server": 2, "method": "allocate_buckets", "nth": 0, "count": 1, "action": "drop"},
-                    {"server": 5, "method": "get_buckets", "nth": 0, "count": 1, "action": "error"},
-                    {"server": 6, "method": "get_buckets", "nth": 0, "count": None, "action": "delay"}], "happy": 4, "download": False},
     ]
     return out
 
@@ -766,7 +817,7 @@ def run(ctx):
     fixed = [("corpus", s) for s in corpus_scenarios()] + [("designed", s) for s in designed()]
     for origin, sc in fixed:
         one_case(ctx, sc, terms, info, origin)
-    n = ctx.n(90, 1400)
+    n = ctx.n(80, 1400)
     for i in range(n):
         r = ctx.rng("grid", i)
         sc = gen_scenario(r)
